@@ -190,6 +190,7 @@ def _evidence(mod, ctx, lean, outcome, known_lines, wall):
         "counters": ctx.counters,
         "known_findings_reported": known_lines,
         "outcome": outcome,
+        "static_tie_unavailable": lean.get("static_tie_unavailable", []),
         "notes": ctx.notes,
     }
     ev = {
@@ -231,6 +232,15 @@ def run_property(prop, tier, seed):
     if gen_info.get("error"):
         lean.setdefault("undischarged", []).append("translator: " + gen_info["error"])
     proof_broken = (not lean["built"]) or bool(lean["undischarged"])
+    # A formula anchor that can no longer be LOCATED in the source (renamed local, restructured statement) is a limit of
+    # the secondary, static tie — not a failed obligation.  DESIGN §3.3: the behavioural correspondence (primary tie) is
+    # then run at 10x budget; the evidence records which anchors were unavailable.
+    unavailable = list(gen_info.get("unavailable", ()))
+    if unavailable:
+        ctx.note("static tie unavailable for anchors: " + "; ".join(unavailable)[:600])
+        ctx.scale = 10
+
+    lean["static_tie_unavailable"] = unavailable
 
     # 3. correspondence + direct checks
     infra_error = None
